@@ -145,7 +145,7 @@ def gen_case(seed, tier, idx):
 
 
 def _call(ex, op, idx, faults):
-    if bm.apply_env(op):
+    if bm.apply_env(op, ex):
         return {}
     if op["op"] == "point":
         return {"P": ex.point(xf(op["t"]), faults, idx)}
